@@ -21,19 +21,19 @@ func tokEnv() map[string]*V {
 }
 
 type tokGen struct {
-	g       *RNG
-	bad     [256]bool
-	items   []tItem
-	depth   int
-	loop    int
-	capt    int // nesting depth of capture blocks
-	nvar    int
-	errs    int  // error constructs still allowed
-	errUsed bool
+	g               *RNG
+	bad             [256]bool
+	items           []tItem
+	depth           int
+	loop            int
+	capt            int // nesting depth of capture blocks
+	nvar            int
+	errs            int // error constructs still allowed
+	errUsed         bool
 	noFilterCapture bool // captured text is only printed (deftext cases)
-	rawTok  bool         // raw bodies may contain tokens (wrapped in sentinels)
-	nraw    int
-	hist    map[string]int
+	rawTok          bool // raw bodies may contain tokens (wrapped in sentinels)
+	nraw            int
+	hist            map[string]int
 }
 
 func (t *tokGen) ok(s string) bool {
@@ -64,8 +64,8 @@ func (t *tokGen) cnt(k string) {
 var tokWs = []string{" ", " ", " ", "", "  ", "\n", "\t", " \n ", "\r\n"}
 var tokWsM = []string{" ", " ", " ", "  ", "\n", "\t", " \n  "}
 
-func (t *tokGen) ws() string  { return tokWs[t.g.Intn(len(tokWs))] }
-func (t *tokGen) hy() bool    { return t.g.Chance(18) }
+func (t *tokGen) ws() string    { return tokWs[t.g.Intn(len(tokWs))] }
+func (t *tokGen) hy() bool      { return t.g.Chance(18) }
 func (t *tokGen) text(s string) { t.items = append(t.items, tItem{Kind: 'x', Text: s}) }
 func (t *tokGen) obj(args string) {
 	t.items = append(t.items, tItem{Kind: 'o', Args: args, TrimL: t.hy(), TrimR: t.hy(), WsL: t.ws(), WsR: t.ws()})
